@@ -2,4 +2,4 @@
 From Coq Require Import ZArith ExtrOcamlBasic.
 Require Import ZV.Model.GoConv ZV.Model.GoConvSpec.
 Extraction "model.ml" Z.add Z.mul Z.opp Z.div_eucl Z.of_nat Z.to_nat Z.compare
-  to_go echo spec_to_go spec_echo wf_tenv spec_dets find_reg find_struct hist_convert hist_receiver hash_set.
+  to_go echo spec_to_go spec_echo wf_tenv spec_dets find_reg find_struct hist_convert hist_receiver hist_return hash_set.
